@@ -61,7 +61,7 @@ pub enum Transport {
     /// direct `Interface` recorder, 16-bit words, KIND = Parallel16Bit (Rgb565 models only)
     Rec16,
     /// real `SpiInterface` over the rig's SPI device and DC pin, staging buffer of this length
-    Spi { buf: u16 },
+    Spi { buf: u32 },
     /// real `ParallelInterface` over `Generic8BitBus`
     Par8,
     /// real `ParallelInterface` over `Generic16BitBus` (Rgb565 models only)
